@@ -35,7 +35,10 @@ class Ctx:
         self.seed = seed
         self.replay = replay
         self.t0 = time.time()
-        self.out = os.path.join(VERIF, "out", prop)
+        # VERIF_SCRATCH: write out/ and evidence/ somewhere else (runs against seeded changes, so
+        # that they neither overwrite the committed evidence nor collide when run in parallel)
+        self.base = os.environ.get("VERIF_SCRATCH") or VERIF
+        self.out = os.path.join(self.base, "out", prop)
         os.makedirs(self.out, exist_ok=True)
         for fn in ([] if replay else os.listdir(self.out)):  # replays of earlier runs are not evidence of this one
             try:
@@ -194,8 +197,8 @@ def finish(ctx: Ctx):
     ev = dict(property_id=ctx.prop, tier=ctx.tier, seed=int(ctx.seed), level=ctx.level, coverage=cov,
               assumptions=ctx.assumptions, wall_s=round(ctx.elapsed(), 2), violations=len(ctx.violations),
               known_findings_printed=ctx.known_printed)
-    os.makedirs(os.path.join(VERIF, "evidence"), exist_ok=True)
-    with open(os.path.join(VERIF, "evidence", f"{ctx.prop}.json"), "w") as f:
+    os.makedirs(os.path.join(ctx.base, "evidence"), exist_ok=True)
+    with open(os.path.join(ctx.base, "evidence", f"{ctx.prop}.json"), "w") as f:
         json.dump(ev, f, indent=1, default=str)
     print(f"[{ctx.prop}] tier={ctx.tier} seed={ctx.seed} evaluations={cov['evaluations']} "
           f"nontrivial={cov['distinct_nontrivial']} obligations={cov.get('obligations')} "
